@@ -42,4 +42,5 @@ with concurrent.futures.ThreadPoolExecutor(8) as ex:
         else:
             others=[p for p,v in res.items() if isinstance(v,dict) and v["exit"]==1]
             print(f"{'NOCHECK':7s} {name:40s} {prop} {tgt if tgt else res} {('killed-by:'+','.join(others)) if others else ''}")
-json.dump(out,open(here+"/tools/killmatrix.json","w"),indent=1,sort_keys=True)
+if allprops and not args:
+    json.dump(out,open(here+"/tools/killmatrix.json","w"),indent=1,sort_keys=True)  # only a complete run replaces the recorded matrix
